@@ -1,0 +1,56 @@
+//go:build verif
+
+package nitro
+
+import (
+	"unsafe"
+
+	"github.com/couchbase/nitro/skiplist"
+)
+
+// Verification-only accessors (build tag verif). Read-only views and thin
+// wrappers; none of this is compiled into a normal build.
+
+// VerifYieldHook is called at labelled points of package nitro when non-nil.
+var VerifYieldHook func(point int)
+
+func verifYield(p int) {
+	if h := VerifYieldHook; h != nil {
+		h(p)
+	}
+}
+
+func (m *Nitro) VerifNewFileWriter() FileWriter        { return m.newFileWriter(RawdbFile) }
+func (m *Nitro) VerifNewFileReader(ver int) FileReader { return m.newFileReader(RawdbFile, ver) }
+func (m *Nitro) VerifNewItem(bs []byte) *Item          { return m.newItem(bs, false) }
+func (m *Nitro) VerifStore() *skiplist.Skiplist        { return m.store }
+func (m *Nitro) VerifGCSnapshots() *skiplist.Skiplist  { return m.gcsnapshots }
+func (m *Nitro) VerifSnapshots() *skiplist.Skiplist    { return m.snapshots }
+
+func (itm *Item) VerifBornSn() uint32 { return itm.bornSn }
+func (itm *Item) VerifDeadSn() uint32 { return itm.deadSn }
+
+func VerifItemOf(n *skiplist.Node) *Item { return (*Item)(n.Item()) }
+
+func (s *Snapshot) VerifSn() uint32             { return s.sn }
+func (s *Snapshot) VerifRefCount() int32        { return s.refCount }
+func (s *Snapshot) VerifGCList() *skiplist.Node { return s.gclist }
+
+func (w *Writer) VerifGCHead() *skiplist.Node { return w.gchead }
+func (w *Writer) VerifCount() int64           { return w.count }
+
+// VerifCmp exposes the three derived comparators on items given by (bytes, bornSn, deadSn).
+func (m *Nitro) VerifCmp(which int, a []byte, aBorn, aDead uint32, b []byte, bBorn, bDead uint32) int {
+	x := m.newItem(a, false)
+	x.bornSn, x.deadSn = aBorn, aDead
+	y := m.newItem(b, false)
+	y.bornSn, y.deadSn = bBorn, bDead
+	switch which {
+	case 0:
+		return m.insCmp(unsafe.Pointer(x), unsafe.Pointer(y))
+	case 1:
+		return m.iterCmp(unsafe.Pointer(x), unsafe.Pointer(y))
+	default:
+		return m.existCmp(unsafe.Pointer(x), unsafe.Pointer(y))
+	}
+}
